@@ -9,7 +9,7 @@ import ast
 
 from ..astx import (calls_in, dotted, norm, src, iter_nodes, aliases_of, canon,
                     assigned_targets, const_value, is_const)
-from ..lib import (call_arg, relation, truth, other, cmp_views, core, holds_region, conditions, path_tests, entails_empty, paths_entail_empty, eval_conditions, relation_tests, atom_key, expand_condition, mode_mismatch_conditions, calls, cfg_nodes_with_call, node_calls, attr_assign_nodes, returns,
+from ..lib import (call_arg, relation, truth, other, cmp_views, core, holds_region, conditions, found_test, found_tests, path_tests, entails_empty, paths_entail_empty, eval_conditions, relation_tests, atom_key, expand_condition, mode_mismatch_conditions, calls, cfg_nodes_with_call, node_calls, attr_assign_nodes, returns,
                    stmt_assigns_attr, callee_last, guard_region, find_test_nodes,
                    compare_parts, is_name, node_contains)
 from ..linear import lin, ctext, Lin, slice_bounds
@@ -278,10 +278,13 @@ def check_match_tiling(c, repo):
     win = scall.args[0]
     c.need(isinstance(win, ast.Name), 'search() is not given a plain window variable')
     W = win.id
-    tests = find_test_nodes(f, lambda t: compare_parts(t) is not None and is_name(compare_parts(t)[0], idx)
-                            and isinstance(compare_parts(t)[1], ast.GtE) and is_const(compare_parts(t)[2], 0))
-    c.need(len(tests) == 1, 'do_search: `if %s >= 0` test not found' % idx)
-    region = guard_region(g, tests[0], 'true')
+    tests = found_tests(g, idx)
+    c.need(len(tests) == 1, 'do_search: test of %s against the not-found value not found' % idx)
+    c.check(tests[0][1] != 'wrong', f, tests[0][0].ast, 'a match is any index >= 0 (index 0, the first pattern of the list, included)',
+            witness=norm(tests[0][0].ast), kind='alg', tag='match-test')
+    if tests[0][1] == 'wrong':
+        return
+    region = guard_region(g, tests[0][0], tests[0][1])
     al = aliases_of(f)
     searcher = None
     # canonical names
